@@ -158,11 +158,11 @@ struct Value {
 };
 
 struct Ctx {
-   vh::Rng & g; const GenOptions & o; GenTrace * t; long budget; uint32_t nameCounter; bool nanOK;   // nanOK: NaNs only in about a third of the Messages, so that operator== can be checked on the others
-   Ctx(vh::Rng & rng, const GenOptions & opt, GenTrace * tr) : g(rng), o(opt), t(tr), budget(opt.sizeClass == SIZE_SMALL ? 200 : opt.sizeClass == SIZE_NORMAL ? 2500 : 20000), nameCounter(0), nanOK(opt.allowNaN) {}
+   vh::Rng & g; const GenOptions & o; GenTrace * t; long budget; uint32_t nameCounter; size_t logCap; bool nanOK;   // nanOK: NaNs only in about a third of the Messages, so that operator== can be checked on the others
+   Ctx(vh::Rng & rng, const GenOptions & opt, GenTrace * tr) : g(rng), o(opt), t(tr), budget(opt.sizeClass == SIZE_SMALL ? 200 : opt.sizeClass == SIZE_NORMAL ? 2500 : 20000), nameCounter(0), logCap(3000), nanOK(opt.allowNaN) {}
    uint32_t R(uint32_t n) { return g.R(n); }
    void Op(int op) { if (t) t->ops[op]++; }
-   void Log(const std::string & s) { if (t && t->wantScript && t->script.size() < 3000) { t->script += s; t->script += ' '; } }
+   void Log(const std::string & s) { if (t && t->wantScript && t->script.size() < logCap) { t->script += s; t->script += ' '; } }
 };
 
 // a build route did not do what its documentation says (not a harness precondition): remembered in the trace for the caller's verdict
@@ -679,6 +679,7 @@ static inline void MutateMessage(vh::Rng & rng, const GenOptions & opts, Message
    const int depth = opts.maxDepth > 0 ? opts.maxDepth - 1 : 0;   // new Message items are leaves
    std::set<std::string> used;
    for (MessageFieldNameIterator it = m.GetFieldNameIterator(); it.HasData(); it++) used.insert(std::string(it.GetFieldName()()));
+   if (trace) c.logCap = trace->script.size() + 2000;   // the mutation part is always recorded in full
    c.Log("mutate:");
    for (uint32_t k = 1 + c.R(5); k > 0; k--) {
       std::vector<std::string> names; for (MessageFieldNameIterator it = m.GetFieldNameIterator(); it.HasData(); it++) names.push_back(std::string(it.GetFieldName()()));
@@ -689,6 +690,7 @@ static inline void MutateMessage(vh::Rng & rng, const GenOptions & opts, Message
          if ((flags & MUT_SHARED_ITEMS) && f.n < 2) continue;
          if ((flags & MUT_PRIVATE_FIRST) && m.EnsureFieldIsPrivate(f.name.c_str()).IsError()) BuildFail("EnsureFieldIsPrivate before a mutation", B_LOGIC_ERROR);
          c.Op(OP_MUTATE_ITEMOP);
+         if (f.n == 0) { OpAdd(c, m, f, depth, false, c.R(2) ? M_ADD : M_PREPEND); continue; }   // (left empty by its array's other owner, see SameField) it can only grow
          switch (c.R(6)) {
          case 0: OpAdd(c, m, f, depth, f.n > 8, M_ADD); break;
          case 1: OpAdd(c, m, f, depth, f.n > 8, M_PREPEND); break;
@@ -769,6 +771,7 @@ static inline std::string DescribeMessage(const Message & m, size_t maxLen = 440
 // fields of (a) are skipped and (b) must not contain any (b is what came back from the wire).  On a difference: (why) = readable
 // witness, (whyKey) = stable classifier.
 static inline bool IsNonFlat(uint32 t) { return t == B_POINTER_TYPE || t == B_TAG_TYPE; }
+static inline long & ZeroItemFieldsCompared() { static long n = 0; return n; }   // observation counter for the callers' statistics
 // one field of (a) against one field of (b) (the names may differ): type code, item count, item bytes, recursively
 static inline bool SameField(const Message & a, const String & fa, const Message & b, const String & fb, bool skipNonFlattenableInA, std::string & why, std::string & whyKey, int depth = 0)
 {
@@ -778,7 +781,9 @@ static inline bool SameField(const Message & a, const String & fa, const Message
    if (!ha) return true;
       if (ta != tb) { why = "type code of '" + Esc(fa(), 20) + vh::fmt("': %08x vs %08x", ta, tb); whyKey = "type-code"; return false; }
       if (na != nb) { why = std::string(TypeCodeName(ta)) + " field '" + Esc(fa(), 20) + vh::fmt("': %u items vs %u", na, nb); whyKey = std::string("item-count|") + TypeCodeName(ta); return false; }
-      if (na == 0) { why = "field '" + Esc(fa(), 20) + "' with zero items"; whyKey = "zero-item-field"; return false; }
+      if (na == 0) { ZeroItemFieldsCompared()++; return true; }   // a field without items: the class comment promises "one or more data items" and RemoveData() drops a field
+                                                                 // with its last item, but a field that SHARES its array (ShareName, lightweight copy) is left behind empty when the
+                                                                 // items are removed through the other owner.  Such a Message is constructible, so it must make the trip like any other.
       for (uint32 i = 0; i < na; i++) {
          if (ta == B_MESSAGE_TYPE) {
             ConstMessageRef sa, sb;
